@@ -112,6 +112,75 @@ def subsecond_times(out: Outcome, fn, rng, count):
                 break
 
 
+def _put(obj, j, val):
+    """The same container with element j replaced by `val` (unmasked)."""
+    import numpy as np
+    import pandas as pd
+
+    if isinstance(obj, tuple):
+        lst = list(obj)
+        lst[j] = val
+        return tuple(lst)
+    if isinstance(obj, list):
+        lst = list(obj)
+        lst[j] = val
+        return lst
+    if isinstance(obj, pd.Series):
+        obj = obj.copy()
+        obj.iloc[j] = val
+        return obj
+    if isinstance(obj, np.ma.MaskedArray):
+        obj = obj.copy()
+        obj[j] = val
+        return obj
+    obj = np.array(obj, dtype="float64")
+    obj[j] = val
+    return obj
+
+
+def infinite_values(out: Outcome, fn, rng, count):
+    """A series holding +inf / -inf: not a finite number and not one of the missing markers, so the functional properties say nothing
+    about its flag — but C15 does: whatever the flag is, it must not depend on the container.  Relational half only (every float-capable
+    carrier against the float64 array)."""
+    import warnings
+
+    import numpy as np
+
+    carriers = ["nd_f8", "list_nan", "list_none", "tuple_none", "series", "ma_nan", "ma_junk"]
+    done = tries = 0
+    while done < count and tries < count * 6:
+        tries += 1
+        case = gen.GENERATORS[fn](rng, 8)
+        if case.get("decimal_f32") or case.get("as_time") or not std_margin_ok(case):
+            continue
+        key = "inp" if "inp" in case else "lon"
+        n = len(case[key])
+        if n < 2 or any(len(case[k]) != n for k in fx.SERIES_KEYS[fn]):
+            continue
+        j = rng.randrange(n)
+        val = rng.choice([float("inf"), float("-inf")])
+        obs = []
+        for ca in carriers:
+            try:
+                f, kw = sut.build_call(case, ca, "dt64ns", "list")
+                kw[key] = _put(kw[key], j, val)
+                with warnings.catch_warnings():
+                    warnings.simplefilter("ignore")
+                    with np.errstate(all="ignore"), sut.time_limit():
+                        obs.append(sut.canon_result(f(**kw)))
+            except Exception as e:  # noqa: BLE001
+                obs.append(sut.err_obs(e))
+        done += 1
+        out.record({"infinite": jsonable(case), "j": j}, fx.nontrivial(obs[0]), [f"fn:{fn}", "infinite-value"])
+        for ca, o in zip(carriers[1:], obs[1:]):
+            if o.get("flags") != obs[0].get("flags") or ("error" in o) != ("error" in obs[0]):
+                out.violation(f"{WHAT}: {fn} with {val} at position {j} through data carrier {ca}: {o.get('flags', o)} vs "
+                              f"{obs[0].get('flags', obs[0])} (float64 array)",
+                              {"fn": fn, "case": jsonable(case), "position": j, "value": str(val), "carriers": [ca, "dt64ns", "list"],
+                               "observed": o, "baseline": obs[0]})
+                break
+
+
 def run(out: Outcome, drv):
     n = 120 if out.tier == "quick" else 3000
     out.rule = ("for every test: generated logical case (valid parameters), delivered through every supported data carrier (list / tuple "
@@ -152,6 +221,8 @@ def run(out: Outcome, drv):
             meta.append((case, variants, obs))
         if fn in HAS_TIME:
             subsecond_times(out, fn, gen.rng_for(out.seed, "C15", fn, "subsecond"), max(10, n // 4))
+        if fn not in ("valid",):
+            infinite_values(out, fn, gen.rng_for(out.seed, "C15", fn, "inf"), max(8, n // 8))
         ans = drv.run(reqs)
         for (case, variants, obs), a in zip(meta, ans):
             if not a["in_dom"]:
